@@ -384,6 +384,7 @@ func runC20(e *env) {
 		}
 		c20Chain(e, id, hops)
 	}
+	runC20X(e)
 }
 
 // c20Tables regenerates the character tables and limits from the running code (public API only).
